@@ -290,13 +290,24 @@ class KeyFn:
 class FragmentFn:
     """x -> [x-part-0, x-part-1] (a list, for unbatch)"""
 
-    def __init__(self, stage, parts=2):
-        self.stage, self.parts = stage, parts
+    def __init__(self, stage, parts=2, lazy=False):
+        self.stage, self.parts, self.lazy = stage, parts, lazy
 
     def __call__(self, x):
         ctx, ids = _enter(self.stage, x)
         ctx.event('ret', self.stage, ids)
+        if self.lazy:
+            # a generator as batch (legal for unbatch): every part is computed
+            # when it is asked for, and says so
+            return self._parts(x, ids)
         return [{'f': self.stage, 'x': x, 'part': p} for p in range(self.parts)]
+
+    def _parts(self, x, ids):
+        for p in range(self.parts):
+            ctx = CTX
+            if ctx is not None:
+                ctx.event('part', self.stage, ids, (p,) + part_path(x))
+            yield {'f': self.stage, 'x': x, 'part': p}
 
 
 class ApplyShuffle:
@@ -464,6 +475,15 @@ class UserStage(lazy_dataset.Dataset):
         return iter(self.input_dataset)
 
 
+class UserStagePlain(UserStage):
+    """the same, with the shortest legal signature: `__iter__(self)` (the base
+    class comment allows a dataset to implement `__iter__` without `with_key`
+    when it does not support key iteration)"""
+
+    def __iter__(self):
+        return UserStage.__iter__(self)
+
+
 def make_source(src, offset=0):
     n = src['n']
     if src.get('kind', 'list') == 'user':
@@ -510,7 +530,7 @@ def apply_stage(ds, st, parallel=True):
     if op == 'unbatch':
         return ds.unbatch()
     if op == 'fragment':
-        return ds.map(FragmentFn(st['id'], st.get('parts', 2)))
+        return ds.map(FragmentFn(st['id'], st.get('parts', 2), lazy=bool(st.get('lazy'))))
     if op == 'filter':
         return ds.filter(FilterFn(st['id'], st['mod'], st['rem']),
                          lazy=st.get('lazy', True))
@@ -537,7 +557,7 @@ def apply_stage(ds, st, parallel=True):
             other = other.map(MapFn(st['map']))
         return ds.concatenate(other)
     if op == 'userstage':
-        return UserStage(ds)
+        return UserStagePlain(ds) if st.get('plain') else UserStage(ds)
     if op == 'keyzip':
         off = st.get('offset', 300)
         keys = list(ds.keys())
